@@ -64,6 +64,9 @@ type Case struct {
 	// cyclers spell their identity alternately "s-N" and "s.N" (both sanitize to "s_N"): the
 	// re-acquire of the closed scope then goes through the registry's sanitized-key path
 	Sanitize bool `json:"sanitize,omitempty"`
+	// FillerScopes: that many further subscopes "fs<i>" exist from the start, each with one counter
+	// incremented once (registries with many entries: growth, iteration while scopes come and go)
+	FillerScopes int `json:"fillerScopes,omitempty"`
 }
 
 // Profile weights the generator towards one property's subject.
@@ -88,6 +91,9 @@ func Gen(t *rapid.T, p Profile) Case {
 		Sanitize:   rapid.IntRange(0, 2).Draw(t, "sanitize") == 0,
 	}
 	c.FinalClose = c.IntervalUS > 0 || rapid.Bool().Draw(t, "finalclose")
+	if rapid.IntRange(0, 5).Draw(t, "fillerScopes?") == 0 {
+		c.FillerScopes = rapid.IntRange(20, 300).Draw(t, "fillerScopes")
+	}
 	total := p.Inc + p.Cycle + p.Gauge
 	n := rapid.IntRange(2, 6).Draw(t, "nworkers")
 	ident := 0
@@ -231,6 +237,10 @@ func Run(c Case) (pbt.Outcome, error) {
 			totals[name] = a
 		}
 		return a
+	}
+	for i := 0; i < c.FillerScopes; i++ {
+		root.SubScope(fmt.Sprintf("fs%d", i)).Counter("c").Inc(1)
+		tot(fmt.Sprintf("fs%d.c", i)).add(1)
 	}
 	// gauge bookkeeping: values whose Update has started / the last value, per gauge
 	gst := make([]*gstate, c.NGauges)
